@@ -161,7 +161,11 @@ impl LyNative for RegExpMatchAll {
     hooks.push_root(list);
 
     for regexp_match in regexp.find_iter(&args[1].to_obj().to_str()) {
-      list.push(val!(hooks.manage_str(regexp_match.as_str())), &hooks.as_gc());
+      // growing the list allocates, until the match is in the list nothing else roots it
+      let found = val!(hooks.manage_str(regexp_match.as_str()));
+      hooks.push_root(found);
+      list.push(found, &hooks.as_gc());
+      hooks.pop_roots(1);
     }
 
     hooks.pop_roots(1);
@@ -189,7 +193,10 @@ impl LyNative for RegExpCaptures {
           Some(sub_capture) => val!(hooks.manage_str(sub_capture.as_str())),
           None => VALUE_NIL,
         }) {
+          // growing the list allocates, until the capture is in the list nothing else roots it
+          hooks.push_root(capture);
           results.push(capture, &hooks.as_gc());
+          hooks.pop_roots(1);
         }
 
         hooks.pop_roots(1);
